@@ -25,10 +25,10 @@ reg("C03", [mon("rt", "mon_lattices")],
 
 reg("C04", [mon("rt", "mon_lattices")],
     technique="runtime monitor: histories of merge/union/LatticeFrom applied in lock-step to all representations of a family, revealed contents and union-find same-matrix compared with a model state after every step; rho-shaped parent maps in watchdogged child processes",
-    text="26 families; per family ~500 enumerated 4-step histories and 800 (thorough 8 000) random histories of up to 12 (40) steps: operand in any representation (incl. read-only), LatticeFrom between self representations, round trips through read-only representations. Union-find: every history of 5 (6) union / merge-an-atom steps over 4 items (2 orientation variants) with the full same(a,b) matrix judged after each step against BFS components, read-only representations queried at the end; 8 (16) rho-shaped parent-map cases run 3x each in child processes under an 8 s (20 s) watchdog, reported only on 3/3 reproduction.",
+    text="26 families; per family ~500 enumerated 4-step histories and 800 (thorough 8 000) random histories of up to 12 (40) steps: operand in any representation (incl. read-only), LatticeFrom between self representations, round trips through read-only representations. Union-find: every history of 5 (6) union / merge-an-atom steps over 4 items (2 orientation variants) with the full same(a,b) matrix judged after each step against BFS components, read-only representations queried at the end; multi-edge merge-in deltas (same item listed 2-3 times with different parents, held by VecMap/ArrayMap2/ArrayMap3; Merge reads them as a list of union edges): every 1-step and every third (thorough: every) 2-step history over all such deltas on 4 items + unions, from the empty and two non-empty union-finds, plus random ones inside the random histories; 8 (16) rho-shaped parent-map cases run 3x each in child processes under an 8 s (20 s) watchdog, reported only on 3/3 reproduction.",
     note=_NOTE_MODEL + " A hang is recognised by wall-clock in the child only; the parent verdict requires 3/3 agreement, otherwise the run is inconclusive.")
 
 reg("C06", [mon("rt", "mon_lattices")],
     technique="runtime monitor: atomize() of every Atomize type, atoms judged by the model (non-bottom, empty iff bottom, re-merge into Default reproduces the model value)",
-    text="19 Atomize types (SetUnion, MapUnion incl. nested MapUnion and WithBot values, WithBot, WithTop, their nestings, UnionFind, ()) x a value list of up to 1 000 (thorough 10 000): no atom is bottom (crate is_bot and model), no atoms <=> bottom, merging the atoms into Default reveals the original model value.",
+    text="29 Atomize types (SetUnion, MapUnion incl. nested MapUnion and WithBot/WithTop values, WithBot, WithTop, their nestings incl. WithTop<WithTop<..>>, WithTop<WithBot<WithTop<..>>> (inner lattice with a reachable top) and wrappers of the one-point lattice (), UnionFind, ()) x the union of the 36/200/4 000 (thorough 80/400/20 000) value lists: no atom is bottom (crate is_bot and model), no atoms <=> bottom, merging the atoms into Default reveals the original model value.",
     note=_NOTE_MODEL)
